@@ -188,6 +188,29 @@ func Mk(op, k string, args ...*Term) *Term {
 			ka, _ := a.IntVal()
 			return Mk("not", "", Mk("cmp", ">", b, Int(ka-1)))
 		}
+		// x + k == c  is  x == c - k
+		if k == "==" {
+			for _, pr := range [][2]*Term{{a, b}, {b, a}} {
+				if c, isC := pr[1].IntVal(); isC && pr[0].Op == "plus" && len(pr[0].Args) == 2 {
+					if kk, isK := pr[0].Args[1].IntVal(); isK {
+						return Mk("cmp", "==", pr[0].Args[0], Int(c-kk))
+					}
+				}
+			}
+		}
+		// integer off-by-one forms:  a > b-1  ==  a >= b  ==  !(b > a);   a+1 > b  ==  a >= b  ==  !(b > a)
+		if k == ">" {
+			if b.Op == "plus" && len(b.Args) == 2 {
+				if c, ok := b.Args[1].IntVal(); ok && c == -1 {
+					return Mk("not", "", Mk("cmp", ">", b.Args[0], a))
+				}
+			}
+			if a.Op == "plus" && len(a.Args) == 2 {
+				if c, ok := a.Args[1].IntVal(); ok && c == 1 {
+					return Mk("not", "", Mk("cmp", ">", b, a.Args[0]))
+				}
+			}
+		}
 		// between two non-constant integer terms only '>' is kept:  a >= b  ==  !(b > a)
 		if !aConst && !bConst && k == ">=" {
 			return Mk("not", "", Mk("cmp", ">", b, a))
